@@ -2,6 +2,7 @@ package main
 
 import (
 	"fmt"
+	"sort"
 	"go/token"
 	"go/types"
 	"unicode/utf8"
@@ -428,19 +429,28 @@ func (m *Machine) concretize(t *Term, lo, hi int64, why string) int64 {
 	}
 	w := t.S.W
 	v := m.decideLazy("conc:"+why, func() []int {
+		// enumerate feasible values through the solver's models (k+1 queries for k values)
 		var opts []int
-		for x := lo; x <= hi; x++ {
-			r := m.solver.CheckWith(Eq(t, MkBV(w, uint64(x))), false)
+		inRange := And(BvCmp("bvsle", MkBV(w, uint64(lo)), t), BvCmp("bvsle", t, MkBV(w, uint64(hi))))
+		excl := []*Term{inRange}
+		for len(opts) <= 4096 {
+			r := m.solver.CheckWith(And(excl...), true)
 			if r == Unknown {
 				m.noteUnknown("concretize " + why)
+				break
 			}
-			if r != Unsat {
-				opts = append(opts, int(x))
+			if r == Unsat {
+				break
 			}
+			model := m.solver.Model()
+			m.solver.PopModelScope()
+			val := sext(evalTerm(t, model, map[*Term]uint64{}), w)
+			opts = append(opts, int(val))
+			excl = append(excl, Not(Eq(t, MkBV(w, uint64(val)))))
 		}
+		sort.Ints(opts)
 		// anything outside the range?
-		out := Or(BvCmp("bvslt", t, MkBV(w, uint64(lo))), BvCmp("bvsgt", t, MkBV(w, uint64(hi))))
-		if r := m.solver.CheckWith(out, false); r != Unsat {
+		if r := m.solver.CheckWith(Not(inRange), false); r != Unsat {
 			opts = append(opts, int(hi+1))
 		}
 		return opts
